@@ -255,13 +255,17 @@ theorem handleBlock2_frame (req : Request) (st : BlockState) :
   simp only
   split
   · rename_i b2 cached _ _
-    have hf := serveCached_frame req b2 cached
-    rcases hsc : serveCached req b2 cached with ⟨req', r⟩
-    rw [hsc] at hf
-    cases r with
-    | ok more => cases more <;> simpa using hf
-    | herr c => simpa using hf
-    | panic => simpa using hf
+    split
+    · rename_i b2' _
+      have hf := serveCached_frame req b2' cached
+      rcases hsc : serveCached req b2' cached with ⟨req', r⟩
+      rw [hsc] at hf
+      cases r with
+      | ok more => cases more <;> simpa using hf
+      | herr c => simpa using hf
+      | panic => simpa using hf
+    · simp
+    · simp
   · simp
 
 theorem handleBlock2_ne_panic (req : Request) (st : BlockState) :
@@ -270,13 +274,18 @@ theorem handleBlock2_ne_panic (req : Request) (st : BlockState) :
   simp only
   split
   · rename_i b2 cached hb _
-    have hf := serveCached_ne_panic req b2 cached (firstBlock_ok hb).1
-    rcases hsc : serveCached req b2 cached with ⟨req', r⟩
-    rw [hsc] at hf
-    cases r with
-    | ok more => simp
-    | herr c => simp
-    | panic => simp at hf
+    split
+    · rename_i b2' hc
+      have hf := serveCached_ne_panic req b2' cached (clampBlock_ok_bv (firstBlock_ok hb) hc).1
+      rcases hsc : serveCached req b2' cached with ⟨req', r⟩
+      rw [hsc] at hf
+      cases r with
+      | ok more => simp
+      | herr c => simp
+      | panic => simp at hf
+    · simp
+    · rename_i hc
+      exact absurd hc (clampBlock_ne_panic _ _)
   · simp
 
 theorem handleBlock2_err (req : Request) (st : BlockState) (c : Option ResponseType)
@@ -287,13 +296,22 @@ theorem handleBlock2_err (req : Request) (st : BlockState) (c : Option ResponseT
   simp only at h
   split at h
   · rename_i b2 cached hb _
-    have hf := serveCached_err req b2 cached c
-    rcases hsc : serveCached req b2 cached with ⟨req', r⟩
-    rw [hsc] at hf h
-    cases r with
-    | ok more => simp at h
-    | herr c' => exact hf (by simpa using h)
-    | panic => simp at h
+    split at h
+    · rename_i b2' _
+      have hf := serveCached_err req b2' cached c
+      rcases hsc : serveCached req b2' cached with ⟨req', r⟩
+      rw [hsc] at hf h
+      cases r with
+      | ok more => simp at h
+      | herr c' => exact hf (by simpa using h)
+      | panic => simp at h
+    · rename_i c' hc
+      have := clampBlock_err hc
+      simp only [HRes.herr.injEq] at h
+      subst h
+      subst this
+      simp
+    · simp at h
   · simp at h
 
 /-! the two cores as compositions of the stages -/
@@ -518,19 +536,44 @@ theorem serveCached_out_of_range (req : Request) (resp : Packet) (rb2 : BlockVal
 /-- follow-up block request while a response is cached: served from the cache
 (the application is not consulted: result `ok true`), entry released iff this
 was the final block -/
-theorem handleBlock2_cached (req : Request) (st : BlockState) (b2 : BlockValue) (cached : Packet)
-    (hb : firstBlock req.message block2Num = some b2) (hc : st.cachedResponse = some cached) :
+theorem handleBlock2_cached_clamped (req : Request) (st : BlockState) (b2 b2' : BlockValue) (cached : Packet)
+    (hb : firstBlock req.message block2Num = some b2) (hc : st.cachedResponse = some cached)
+    (hcl : clampBlock b2 st.cachedSzx = .ok b2') :
     handleBlock2 req st =
-      match serveCached req b2 cached with
+      match serveCached req b2' cached with
       | (req', .ok more) =>
-        (req', { st with lastBlock2 := some b2, cachedResponse := if more then some cached else none }, .ok true)
+        (req', { st with lastBlock2 := some b2, cachedResponse := if more then some cached else none,
+                         cachedSzx := if more then st.cachedSzx else none }, .ok true)
       | (req', r) => (req', { st with lastBlock2 := some b2 }, r) := by
-  simp only [handleBlock2, hb, hc]
-  rcases hsc : serveCached req b2 cached with ⟨req', r⟩
+  simp only [handleBlock2, hb, hc, hcl]
+  rcases hsc : serveCached req b2' cached with ⟨req', r⟩
   cases r with
   | ok more => cases more <;> rfl
   | herr c => rfl
   | panic => rfl
+
+/-- the follow-up does not name a larger size than the one negotiated (`hle`): served as asked -/
+theorem handleBlock2_cached (req : Request) (st : BlockState) (b2 : BlockValue) (cached : Packet)
+    (hb : firstBlock req.message block2Num = some b2) (hc : st.cachedResponse = some cached)
+    (hle : ∀ x, st.cachedSzx = some x → b2.szx ≤ x) :
+    handleBlock2 req st =
+      match serveCached req b2 cached with
+      | (req', .ok more) =>
+        (req', { st with lastBlock2 := some b2, cachedResponse := if more then some cached else none,
+                         cachedSzx := if more then st.cachedSzx else none }, .ok true)
+      | (req', r) => (req', { st with lastBlock2 := some b2 }, r) :=
+  handleBlock2_cached_clamped req st b2 b2 cached hb hc (clampBlock_le hle)
+
+/-- a follow-up naming a LARGER size than the one negotiated and too high a block number for the
+renumbering: 4.00, the state is kept -/
+theorem handleBlock2_cached_bad (req : Request) (st : BlockState) (b2 : BlockValue) (cached : Packet)
+    (c : Option ResponseType)
+    (hb : firstBlock req.message block2Num = some b2) (hc : st.cachedResponse = some cached)
+    (hcl : clampBlock b2 st.cachedSzx = .herr c) :
+    handleBlock2 req st = (req, { st with lastBlock2 := some b2 }, .herr (some .BadRequest)) := by
+  have := clampBlock_err hcl
+  subst this
+  simp only [handleBlock2, hb, hc, hcl]
 
 /-- without a cached response (none yet, released, or expired) or without a
 Block2 option the request goes to the application -/
@@ -555,7 +598,7 @@ theorem coreResponse_fragment (M : Nat) (req : Request) (st : BlockState) (resp 
     (hn : negotiate st.lastBlock2 (size + tokenReserve resp) resp.payload.length M = .ok (some rb2)) :
     coreResponse M req st =
       match serveCached req rb2 resp with
-      | (req', .ok true) => (req', { st with cachedResponse := some resp }, .ok true)
+      | (req', .ok true) => (req', { st with cachedResponse := some resp, cachedSzx := some rb2.szx }, .ok true)
       | (req', r) => (req', st, r) := by
   simp only [coreResponse, hr, hno, Option.isSome_none, Bool.false_eq_true, ↓reduceIte, hsz, hn]
   rfl
